@@ -113,7 +113,8 @@ func (cleanScen) Gen(r *Rng, cfg GenConfig) any {
 	if r.Chance(1, 5) {
 		// links whose names match the output pool / output globs and whose targets are NOT outputs
 		c.Links = map[string]string{}
-		for _, l := range Subset(r, [][2]string{{"out/include", "../src"}, {"out/keep.o", "../keep.txt"}, {"bin/app", "../src/main.c"}, {"z.o", "docs/readme.md"}, {"out/dangling.o", "../nowhere"}}, 1, 2) {
+		for _, l := range Subset(r, [][2]string{{"out/include", "../src"}, {"out/keep.o", "../keep.txt"}, {"bin/app", "../src/main.c"}, {"z.o", "docs/readme.md"}, {"out/dangling.o", "../nowhere"},
+			{"missing.bin", "gone-target"}, {"gen.txt", "nowhere/at/all"}, {"build", "gone-dir"}}, 1, 2) {
 			c.Links[l[0]] = l[1]
 		}
 		c.Tree["keep.txt"], c.Tree["src/main.c"], c.Tree["docs/readme.md"] = "x", "x", "x"
